@@ -888,6 +888,25 @@ func (g *gen) compressed(target int, hdr *itemList) (mlen int) {
 				nb := uint(brotli.VerifDictBitSizes()[clen])
 				idx := rng.Intn(1 << nb)
 				tid := rng.Intn(121)
+				if rng.Intn(3) == 0 {
+					// a dictionary reference that one of the sixteen short distance codes (or the
+					// implicit "last distance") expresses: near the start of the stream the
+					// initial ring values 16, 15, 11, 4 lie beyond the output so far
+					var cands []int
+					for c := 0; c < 16; c++ {
+						if sd := shortDist(c, g.ring); sd > maxd && (sd-maxd-1)>>nb < 121 {
+							cands = append(cands, sd-maxd-1)
+						}
+					}
+					if len(cands) > 0 {
+						addr := cands[rng.Intn(len(cands))]
+						if rng.Intn(2) == 0 && g.ring[0] > maxd && (g.ring[0]-maxd-1)>>nb < 121 {
+							addr = g.ring[0] - maxd - 1
+						}
+						idx, tid = addr&(1<<nb-1), addr>>nb
+						feat["dict-ref-via-ring"]++
+					}
+				}
 				if g.oops() {
 					tid = 121 + rng.Intn(20)
 				}
